@@ -224,7 +224,7 @@ def gen_alias(quick, seed):
     for i, t in enumerate(fixed):
         out.append(ps("alias:%d" % i, t, tag="aliasing"))
     # random alias / mutation / snapshot programs
-    for k in range(20 if quick else 400):
+    for k in range(150 if quick else 1500):
         names = ["a", "b", "c"]
         lines = ['a = [1, [2, 3], {"k": 4}]', 'b = {"x": a, "y": [5]}', "c = a[1]"]
         for j in range(rng.randint(4, 10)):
@@ -321,7 +321,7 @@ probe(i, j)"""
     for i, t in enumerate(scope):
         out.append(ps("scope:%d" % i, t, pt=STD_PT, tag="scoping"))
     # random nestings
-    for k in range(30 if quick else 1500):
+    for k in range(250 if quick else 3000):
         out.append(ps("ctl:r%d" % k, rand_block(rng, 0, 3 if quick else 4, ["x", "y", "z"], in_loop=False), pt=STD_PT,
                       tag="random control flow"))
     return out
@@ -439,7 +439,7 @@ def gen_cancel(quick, seed):
     out.append(ps("cancel:use-inf", 'probe(1)\nuse("b.p")\nprobe(2)', extra={"b.p": "for ;; {\n}"}, fuel=120, tag="infinite loop in a callee"))
     out.append(ps("cancel:use-deep", 'use("b.p")\nprobe(2)', extra={"b.p": 'probe(1)\nuse("c.p")\nprobe(3)', "c.p": "for i = 0; i < 2; i = i + 1 {\nprobe(i)\n}"},
                   tag="cancellation two levels deep"))
-    for k in range(10 if quick else 150):
+    for k in range(40 if quick else 400):
         body = rand_block(rng, 0, 3, ["x", "y"], in_loop=False)
         out.append(ps("cancel:r%d" % k, body, pt=STD_PT, tag="random loop-bearing program, every cancellation point"))
         out.append(ps("cancel:v2r%d" % k, "x = 0\ny = 0\nfi = 1\nfs = \"s\"\nnosuch = nil\n" + body.replace("len(", "one("), v2=True,
@@ -463,9 +463,9 @@ def gen_hostile(quick, seed):
         out.append(ps("hostile:%d" % n, text + "\nprobe(1)", pt=STD_PT, tag=tag))
 
     for a, b in itertools.product(vs, vs):
-        if quick and rng.random() < 0.6:
+        if quick and rng.random() < 0.3:
             continue
-        for op in (BINOPS if not quick else rng.sample(BINOPS, 5)):
+        for op in (BINOPS if not quick else rng.sample(BINOPS, 7)):
             if op in ("/", "%") and b in ("0", "0.0"):
                 continue
             add("x = %s %s %s" % (a, op, b), "hostile operands")
@@ -548,7 +548,7 @@ def gen_v2(quick, seed):
               "_ = 5\nprobe(_)", "message = 1\nprobe(message)"]:
         add(t, "v2 specifics")
     # the shared language: the same programs also run on v1 (C03/C02 families reuse; here random)
-    for k in range(30 if quick else 600):
+    for k in range(200 if quick else 2000):
         body = rand_block(rng, 0, 3, ["x", "y", "z"], in_loop=False).replace("len(", "one(")
         add('x = 0\ny = 0\nz = 0\nfi = 7\nfs = "sv"\nnosuch = nil\n' + body, "v2 random program")
     return out
@@ -678,7 +678,7 @@ def gen_builtins(quick, seed):
             for vn, vlit, vpt in BVALS:
                 if sit == "absent" and vn != "int":
                     continue
-                if quick and rng.random() < 0.55 and sit not in ("absent",):
+                if quick and rng.random() < 0.2 and sit not in ("absent",):
                     continue
                 pt = {"meas": "m", "tags": {"tg": "tv"}, "fields": {"fi": 7, "fs": "sv", "message": "msg"}}
                 pre = []
